@@ -6,7 +6,7 @@ from __future__ import unicode_literals
 
 import os.path
 import numpy as np
-from glob import glob
+from glob import glob, escape
 import abel
 from scipy.linalg import inv
 
@@ -350,7 +350,8 @@ def get_bs_cached(method, cols, basis_dir='', verbose=False):
 
     # read deconvolution operator array if available
     if basis_dir is not None:
-        path_to_basis_files = os.path.join(basis_dir, method+'_basis*')
+        path_to_basis_files = os.path.join(escape(basis_dir),
+                                           method+'_basis*')
         basis_files = glob(path_to_basis_files)
         for bf in basis_files:
             if int(bf.split('_')[-1].split('.')[0]) >= cols:
@@ -436,6 +437,6 @@ def basis_dir_cleanup(method, basis_dir=''):
     if method not in ['onion_peeling', 'three_point', 'two_point']:
         raise ValueError('Incorrect method "{}"!'.format(method))
 
-    files = glob(os.path.join(basis_dir, method + '_basis_*.npy'))
+    files = glob(os.path.join(escape(basis_dir), method + '_basis_*.npy'))
     for fname in files:
         os.remove(fname)
